@@ -195,6 +195,14 @@ impl RollState {
         }
     }
 
+    fn set_size(&mut self, size: u64) {
+        match self {
+            RollState::Size { current_size, .. } => *current_size = size,
+            RollState::AgeOrSize { current_size, .. } => *current_size = size,
+            RollState::Age { .. } => {}
+        }
+    }
+
     fn reset_size_and_date(&mut self, path: &Path) {
         match self {
             RollState::Size {
@@ -538,7 +546,9 @@ impl State {
     }
 
     pub fn reopen_outputfile(&mut self) -> Result<(), std::io::Error> {
-        if let Inner::Active(_, ref mut file, ref p_path) = self.inner {
+        if let Inner::Active(ref mut o_rotation_state, ref mut file, ref p_path) = self.inner {
+            // what is still buffered belongs to the file that was written to so far
+            file.flush().ok();
             match OpenOptions::new().create(true).append(true).open(p_path) {
                 Ok(f) => {
                     // proved to work on standard windows, linux, mac
@@ -554,6 +564,11 @@ impl State {
 
                     *file = Box::new(OpenOptions::new().create(true).append(true).open(p_path)?);
                 }
+            }
+            // the size criterion counts the content of the file that is written to from now on
+            if let Some(ref mut rotation_state) = o_rotation_state {
+                let size = std::fs::metadata(p_path).map_or(0, |md| md.len());
+                rotation_state.roll_state.set_size(size);
             }
         }
         Ok(())
